@@ -20,13 +20,31 @@ def cases(rng, tier):
     n = 1500 if tier == 'quick' else 60000
     pool = [VL.vint(x) for x in VL.ADVERSARIAL_INTS] + [VL.vfloat(x) for x in VL.ADVERSARIAL_FLOATS] + \
            [VL.vcomplex(1.0, 0.0), VL.vcomplex(0.5, 0.0), VL.vcomplex(2.0 ** 60, 0.0), VL.vcomplex(0.0, 1.0), VL.vbool(True), VL.vbool(False),
-            VL.vstr(""), VL.vstr("1"), VL.vbytes(b""), VL.vbytes(b"1"), VL.vnil(), VL.vlist([]), VL.vexc([]), VL.vdict([])]
+            VL.vstr(""), VL.vstr("1"), VL.vbytes(b""), VL.vbytes(b"1"), VL.vnil(), VL.vlist([]), VL.vexc([]), VL.vdict([])] + \
+           [VL.vstr(x) for x in ["가", "\u1100\u1161", "\u00e9", "e\u0301", "\u212b", "\u00c5", "A\u030a", "\uf900", "\u8c48", "a", "A", "ａ"]]
     # (1) all pairs of the adversarial edge pool (thorough) / a sample (quick): ㄴ(a, b) = spec_eq
     pairs = list(itertools.product(pool, pool))
     if tier == 'quick':
         pairs = rng.sample(pairs, 700)
     for a, b in pairs:
         yield Case(program=render(bi('ㄴ', a.expr, b.expr)), tag='edge-pair', monitor='c06_expect', data=pybool(VL.spec_eq(a, b)))
+    # (1a) strings: equal iff the same code points — no normalisation, no case / width folding
+    strs = [VL.vstr(x) for x in ["가", "\u1100\u1161", "\u00e9", "e\u0301", "\u212b", "\u00c5", "A\u030a", "\uf900", "\u8c48", "a", "A", "ａ", "", " "]]
+    for x in strs:
+        for y in strs:
+            yield Case(program=render(bi('ㄴ', x.expr, y.expr)), tag='str-pair', monitor='c06_expect', data=pybool(VL.spec_eq(x, y)))
+            yield Case(program=render(bi('ㄴ', bi('ㅁㄹ', x.expr), bi('ㅁㄹ', y.expr))), tag='str-pair-nested', monitor='c06_expect', data=pybool(VL.spec_eq(x, y)))
+    for _ in range(30 if tier == 'quick' else 300):
+        ks = rng.sample(strs, 4)
+        d = VL.vdict([(k, VL.vint(100 + i)) for i, k in enumerate(ks)])
+        probe = rng.choice(strs)
+        hit = [v for k, v in VL.dict_entries(d) if VL.spec_eq(k, probe)]
+        if hit:
+            yield Case(program=render(call(d.expr, probe.expr)), tag='str-dict', monitor='c06_expect', data=VL.spec_format(hit[0]))
+        else:
+            yield Case(program=render(bi('ㅅㄷ', call(d.expr, probe.expr), fundef(call(arg(0), lit(1))))), tag='str-dict-miss', monitor='c06_expect', data='-60')
+        yield Case(program=render(bi('ㅈㄷ', bi('ㅂㄹ', bi('ㅁㅈ', d.expr))) if False else bi('ㄴ', d.expr, VL.vdict(list(reversed(d.payload))).expr)), tag='str-dict-order',
+                   monitor='c06_expect', data='True')
     # (1b) numeric neighbourhoods: around each base the integer, the nearest floats and slightly-off fractions,
     # each as Integer / Float / Complex with zero and with tiny imaginary part — equality is exact, never
     # "close enough", and int / float / complex spellings of one number are one key
@@ -153,7 +171,7 @@ SPEC = {
     'lean': ['C06'],
     'cases': cases,
     'stream': 'C06 equality / dictionary stream',
-    'rule': 'ㄴ on value pairs / triples: numeric neighbourhoods (base, base+1, base+0.25, next floats up / down, base·(1+5e-10), each as Integer / Float / Complex with zero and tiny imaginary part, also as dictionary keys); all pairs from a 60-value adversarial pool (integers colliding under the host hash: '
+    'rule': 'ㄴ on value pairs / triples: strings that are canonically / compatibility equivalent but spelled with different code points (가 vs ᄀ+ᅡ, é vs e+◌́, Å / Å / A+◌̊, 豈 / 豈, a / ａ); numeric neighbourhoods (base, base+1, base+0.25, next floats up / down, base·(1+5e-10), each as Integer / Float / Complex with zero and tiny imaginary part, also as dictionary keys); all pairs from a 60-value adversarial pool (integers colliding under the host hash: '
             '−1/−2, n ± k(2^61−1), dyadic fractions vs powers of two, ints at 2^53±1 vs floats, equal int/float/complex) '
             '(sampled in quick) and random values of the twelve kinds nested ≤ 3 with mutated and equal-but-rebuilt partners; '
             'expected answer from an independent structural/numeric oracle (exact rationals); reflexivity, symmetry, n-ary; '
